@@ -44,6 +44,10 @@ type Enc struct {
 }
 
 func newEnc(p *Program) *Enc {
+	sliceParts = map[string][4]T{}
+	qcount = 0
+	p.strLits = map[string]string{}
+	p.strOrder = nil
 	return &Enc{prog: p, decls: map[string]string{}, defs: map[string]string{}, facts: map[string][]string{},
 		stateSort: map[string]Sort{}, verAlloc: map[string]T{}, wfDone: map[string]bool{}, assumed: map[string]bool{}, usedStr: map[string]bool{}}
 }
@@ -104,7 +108,23 @@ func (e *Enc) define(base string, t T) T {
 	e.decls[name] = fmt.Sprintf("(declare-const %s %s)", name, t.Sort)
 	e.defs[name] = fmt.Sprintf("(assert (= %s %s))", name, t.S)
 	e.autoFacts(name, t.Sort)
+	if p, ok := sliceParts[t.S]; ok {
+		sliceParts[name] = p
+	}
 	return T{name, t.Sort}
+}
+
+// definePath: a Boolean path predicate that IMPLIES its body (one direction only: being on the path
+// entails the accumulated assumptions; the converse is never needed and would put quantified
+// assumptions in negative polarity).
+func (e *Enc) definePath(base string, t T) T {
+	if t.S == "true" || t.S == "false" {
+		return e.define(base, t)
+	}
+	name := q(e.fresh(base))
+	e.decls[name] = fmt.Sprintf("(declare-const %s Bool)", name)
+	e.defs[name] = fmt.Sprintf("(assert (=> %s %s))", name, t.S)
+	return T{name, SBool}
 }
 
 // defineNamed: constant with exact name.
@@ -116,6 +136,9 @@ func (e *Enc) defineNamed(name string, t T) T {
 	e.decls[qn] = fmt.Sprintf("(declare-const %s %s)", qn, t.Sort)
 	e.defs[qn] = fmt.Sprintf("(assert (= %s %s))", qn, t.S)
 	e.autoFacts(qn, t.Sort)
+	if p, ok := sliceParts[t.S]; ok {
+		sliceParts[qn] = p
+	}
 	return T{qn, t.Sort}
 }
 
@@ -199,6 +222,9 @@ func (e *Enc) cone(goal string, extra []string) (decls []string, asserts []strin
 		if d, ok := e.decls[s]; ok {
 			add(d)
 		}
+		if ax, ok := zeroArrays[s]; ok {
+			add(ax)
+		}
 	}
 	sort.Strings(visited)
 	used = seen
@@ -243,6 +269,11 @@ func (e *Enc) Query(o *Obl) string {
 	}
 	// string literal distinctness
 	b.WriteString(e.prog.strPrelude(decls))
+	for _, name := range sortedKeys(used) {
+		if ax, ok := zeroArrays[name]; ok {
+			b.WriteString(ax)
+		}
+	}
 	if used["impl"] {
 		b.WriteString(e.prog.implAsserts())
 	}
